@@ -516,7 +516,14 @@ def jobs_for(t):
     # two-atom events in which an atom carries TWO subscripts (the subscripts of an ancestor are decided by cutting
     # the edges into all intervened variables at once)
     for gg in (G("BCAY", ["BC", "CA", "AY", "BY"], []), G("BCAY", ["BC", "CA", "AY", "BY"], ["CY"]), G("BCAY", ["BC", "BA", "CA", "AY"], ["BY"])):
-        evs2 = [ev for ev in events(gg.nodes, 2, 2) if any(len(s_) == 2 for _, s_, _ in ev)]
+        # only events whose subscripts give every variable one value across the atoms: with two values (B = 1 in one world,
+        # B = 0 in the other) the returned pair (expression with unmarked variables, event) has no reading under DESIGN 14.3
+        # and the term-by-term attribution of D12 does not decide these 4-node outputs (not triaged: outside the family)
+        def one_valued(ev):
+            seen = {}
+            return all(seen.setdefault(n, x) == x for _, s_, _ in ev for n, x in s_)
+
+        evs2 = [ev for ev in events(gg.nodes, 2, 2) if any(len(s_) == 2 for _, s_, _ in ev) and one_valued(ev)]
         k = 40 if t == "quick" else 6
         add(gg, one(gg, evs2, stride=k * 7, offset=seed()))
     if t == "quick":
@@ -561,7 +568,7 @@ def run() -> int:
         "procedure": "ctfTRu (transport_unconditional_counterfactual_query) and ctfTR (transport_conditional_counterfactual_query; single outcome atom given a single condition atom on distinct variables)",
         "target_graphs": "ADMGs <=3 nodes (one labelling quick, two thorough) and the 4-node running example of Correa et al. (Fig. 2)",
         "domains": "1 source domain (2 for a thin slice): any subset S of nodes carrying a transport node, policy set empty or one variable (its incoming edges removed in the selection diagram), joint PP[pi_k](V), topological order of the selection diagram",
-        "four_node_family": "three 4-node graphs B -> C -> A -> Y with B -> Y (plain, with C <-> Y, and a variant with B -> A, B <-> Y): a stride of the consistent two-atom events in which an atom carries two subscripts, one source domain",
+        "four_node_family": "three 4-node graphs B -> C -> A -> Y with B -> Y (plain, with C <-> Y, and a variant with B -> A, B <-> Y): a stride of the consistent two-atom events in which an atom carries two subscripts and no variable gets two different subscript values, one source domain",
         "events": "<=2 atoms, subscripts <=1 (two on the 4-node family); mainly events that give every variable one value (a subscript on an event variable repeats its value); a slice of arbitrary events",
         "models": "target: all positive functional binary SCMs (response types); domain k: same tables except independent tables at the S-marked nodes and a fresh marginal policy distribution for the policy variable",
         "per_query_timeout_ms": TIMEOUT_MS[t],
